@@ -12,7 +12,7 @@
      q   a majority S of nodes hold e at idx, have a term >= T, and every candidate of a term > T that a member of S
          supports holds e at idx as long as it is Candidate or Leader of that term. *)
 From Coq Require Import NArith List Bool Lia Arith.
-From Agdb Require Import Raft RaftProofs RaftInv RaftElect RaftVote RaftLog RaftLogWf RaftLogMatch RaftLogHand.
+From Agdb Require Import Raft RaftWitness RaftProofs RaftInv RaftElect RaftVote RaftLog RaftLogWf RaftLogMatch RaftLogHand.
 Import ListNotations.
 Open Scope N_scope.
 
@@ -939,18 +939,27 @@ Qed.
 (* the late-leader case is real (3 nodes, 26 events): node 1 collects the delayed vote of its election of term 1
    after node 0, leader of term 2, has committed; none of the six classes occurs.  So the literal statement of C29
    fails in a history that is fine for Raft: the statement has to speak about leaders of HIGHER terms. *)
-Definition wlate : list event :=
-  [ Tick 1 1000 []; Deliver 1%nat 0; Deliver 1%nat 0; Drop 0%nat; Drop 0%nat; Deliver 0%nat 0;
-    Tick 0 0 []; Deliver 2%nat 0; Deliver 2%nat 0; Drop 1%nat; Drop 1%nat; Drop 1%nat;
-    Tick 0 3001 []; Tick 0 0 []; Deliver 2%nat 0; Deliver 2%nat 0; Deliver 3%nat 0; Deliver 3%nat 0;
-    Drop 1%nat; Drop 1%nat; Drop 1%nat; Drop 1%nat; ClientAppend 0 21; Deliver 2%nat 0;
-    Deliver 2%nat 0; Deliver 0%nat 0 ].
+Definition wlate : list event := w29_late_leader.   (* corpus/C29/00_late_leader_older_term.txt *)
+
+(* the boolean the oracles use (RaftLog.leader_completeness_up_b) is sound for the restricted statement *)
+Lemma leader_completeness_up_b_sound : forall h, leader_completeness_up h -> leader_completeness_up_b h = true.
+Proof.
+  induction h as [|g h IH]; intros H; cbn [leader_completeness_up_b]; auto.
+  assert (Hrest : leader_completeness_up h).
+  { intros h1 h2 i t idx e j t' log -> Hin. eapply (H (g :: h1)); [reflexivity | exact Hin]. }
+  specialize (IH Hrest).
+  destruct g as [| | | i [|] t idx e | | |]; auto.
+  rewrite IH, andb_true_r. apply forallb_forall; intros g Hg.
+  destruct g as [| | j t' log | | | |]; auto.
+  destruct (N.ltb_spec t t'); cbn [negb orb]; auto.
+  apply oentry_eqb_eq. eapply (H []); [reflexivity | exact Hg | exact H0].
+Qed.
 
 Lemma wlate_facts :
   let h := c_hist (run rr_fixed 3 wlate) in
   leader_completeness_b h = false /\ election_safety_b h = true /\
   classes h = (false, false, false, false, false) /\ commit_noquorum_b rr_fixed 3 wlate = false /\
-  late_leader_b h = true /\ leaders h = [(0, 2); (1, 1)].
+  late_leader_b h = true /\ leaders h = [(0, 2); (1, 1)] /\ leader_completeness_up_b h = true.
 Proof. vm_compute. repeat split; reflexivity. Qed.
 
 Lemma late_leader_refutes_literal_C29 :
